@@ -845,6 +845,12 @@ class Interp:
             if coll.known():
                 return x.v in coll.pat
             return None
+        elif isinstance(coll, Term) and coll.op == 'hex' and isinstance(x, K) and isinstance(x.v, str):
+            if x.v == '':
+                return True
+            if set(x.v) - set('0123456789abcdef'):
+                return False        # the text of bytes.hex() consists of lower-case hex digits only
+            return None
         else:
             return None
         anyunk = False
